@@ -125,13 +125,11 @@ class ArrayType(per.ArrayType):
             if self.minimum <= len(data) <= self.maximum:
                 encoder.append_bit(0)
             else:
+                # Outside the root: as for an unbound size,
+                # fragmented if 16K elements or more.
                 encoder.append_bit(1)
-                encoder.append_length_determinant(len(data))
 
-                for entry in data:
-                    self.element_type.encode(entry, encoder)
-
-                return
+                return self.encode_unbound(data, encoder)
 
         if self.number_of_bits is None:
             return self.encode_unbound(data, encoder)
@@ -149,11 +147,9 @@ class ArrayType(per.ArrayType):
             bit = decoder.read_bit()
 
             if bit:
-                length = decoder.read_length_determinant()
+                return self.decode_unbound(decoder)
 
-        if length is not None:
-            pass
-        elif self.number_of_bits is None:
+        if self.number_of_bits is None:
             return self.decode_unbound(decoder)
         else:
             length = self.minimum
